@@ -77,6 +77,10 @@ func DecodeGeneric(token string) (*GenericClaims, error) {
 		if !gc.verify(chunks[1], sig) {
 			return nil, errors.New("claim failed V1 signature verification")
 		}
+		if gc.GenericClaims.Data == nil {
+			// no nats section in the payload: make room for the re-homed fields
+			gc.GenericClaims.Data = make(map[string]interface{})
+		}
 		if tp := gc.GenericFields.Type; tp != "" {
 			// the conversion needs to be from a string because
 			// on custom types the type is not going to be one of
